@@ -1615,14 +1615,14 @@ def finish(pid, tier, t0, cfg, reach, results, nat, nval, n_lex_texts, n_line_te
             "line-contents-checked"]
     if reach.get("pskel"):
         need += ["parse-skel-tree-checked", "node:FUNCTION", "node:BLOCK_EXPR"]
-    if reach.get("only"):
-        need = ["parse-skel-tree-checked", "node:FUNCTION", "node:BLOCK_EXPR"]       # development run of one family
     if reached >= 5 or cfg["skel_k"] >= 3:
         need.append("astral-character-inside-string")
     if reached >= 6:
         need.append("brace-stack-depth-2-after")     # `"${` read with one level already open needs a cursor >= 3 and 3 more bytes
     if reached >= 7:
         need.append("brace-stack-depth-2-before")    # two levels open need a cursor >= 6
+    if reach.get("only"):
+        need = ["parse-skel-tree-checked", "node:FUNCTION", "node:BLOCK_EXPR"]       # development run of one family
     if not rep.new and not rep.known_hit:
         for k in need:
             if not vac.get(k):
